@@ -123,6 +123,20 @@ func DirPatterns(fs billy.Filesystem, path []string) ([]Pattern, error) {
 	return ps, nil
 }
 
+// ExcludePatterns returns the patterns of $GIT_DIR/info/exclude, read through
+// gitDir, a filesystem rooted at the repository's git directory. It is for
+// callers whose worktree filesystem cannot reach the git directory (a bare
+// repository layout, a .git file, or a filesystem that refuses paths below
+// .git), where RootPatterns finds no exclude file. A missing file is not an
+// error and yields no patterns.
+func ExcludePatterns(gitDir billy.Filesystem) ([]Pattern, error) {
+	ps, err := readIgnoreFile(gitDir, nil, "info/exclude")
+	if err != nil && !os.IsNotExist(err) {
+		return nil, err
+	}
+	return ps, nil
+}
+
 // RootPatterns returns the patterns that apply to a whole worktree before any
 // .gitignore is consulted: .git/info/exclude followed by the .gitignore at the
 // root, in ascending order of priority. Missing files are not an error.
